@@ -102,10 +102,11 @@ def run_family(pid, tier, family, invariants, props, cats, bounds, sample_n, j=1
                 break
         groups = {k: v for k, v in groups.items() if histories.interesting(k, min_cmds) or sched_independent}
         tot_groups += len(groups)
-        chosen = histories.sample(groups, sample_n if sample_n else len(groups), common.seed())
+        sn = max(sample_n, prog.get('sample_n', 0)) if sample_n else None      # (a program may ask for a larger sample)
+        chosen = histories.sample(groups, sn if sn else len(groups), common.seed())
         pad = pads[(common.seed() + len(prog['name'])) % len(pads)]
         n_ok, fails = histories.replay_all(prog, chosen, bindir, os.path.join(d, 'replay'), nworkers=10, cats=cats,
-                                           pad=pad, watch=watch, jitter=jitter, repeat=repeat, cmd_timeout=cmd_timeout,
+                                           pad=pad, watch=watch, jitter=jitter, repeat=repeat * prog.get('repeat', 1), cmd_timeout=cmd_timeout,
                                            sched=sched, trace_dir=os.path.join(d, 'traces') if trace_locks else None,
                                            log_mode='0' if prog.get('no_viewer') else None)
         if trace_locks and os.path.isdir(os.path.join(d, 'traces')):
